@@ -250,6 +250,13 @@ fn make_plugins(kind: u8) -> Vec<Box<dyn Plugin + Send>> {
 
 /// one run of the real pipeline. caps: one capacity per channel, in pipeline order.
 fn run_pipeline(spec: &PipeSpec, msgs: &[DltMessage], caps: &[usize], pacing: &Pacing) -> RunOut {
+    run_pipeline_live(spec, msgs, caps, pacing, None)
+}
+/// `live`: a LIVE source - after the given messages the producer goes on sending copies of this message (the same ECU keeps logging:
+/// reception time and time stamp advance by 10 ms per copy) and stops only when its send fails (or, as a safety net of the driver,
+/// after JOIN_BOUND).  Used for consumer-drop cases: with a source that never ends by itself "every stage terminates" needs the
+/// disconnect to travel back through every stage.
+fn run_pipeline_live(spec: &PipeSpec, msgs: &[DltMessage], caps: &[usize], pacing: &Pacing, live: Option<DltMessage>) -> RunOut {
     assert_eq!(caps.len(), spec.nchan());
     let full_before = adlt::verif::SEND_FULL_HITS.load(Ordering::SeqCst);
     let (done_tx, done_rx) = channel::<(String, Option<String>)>();
@@ -326,6 +333,9 @@ fn run_pipeline(spec: &PipeSpec, msgs: &[DltMessage], caps: &[usize], pacing: &P
     // producer (as convert.rs:849 / remote.rs:2277: the same helper, stop on error, then drop the sender)
     let input: Vec<DltMessage> = msgs.to_vec();
     let pp = pacing.clone();
+    let mut live_src = live;
+    let live_base_us = msgs.iter().map(|m| m.reception_time_us).max().unwrap_or(0);
+    let live_first_index = msgs.iter().map(|m| m.index).max().unwrap_or(0);
     others.push(spawn_stage("producer", &done_tx, move || {
         for (i, m) in input.into_iter().enumerate() {
             for (at, ms) in &pp.p_stalls {
@@ -337,7 +347,25 @@ fn run_pipeline(spec: &PipeSpec, msgs: &[DltMessage], caps: &[usize], pacing: &P
                 std::thread::sleep(Duration::from_micros(pp.p_each_us));
             }
             if sync_sender_send_delay_if_full(m, &tx_for_parse_thread).is_err() {
+                live_src = None;
                 break;
+            }
+        }
+        if let Some(l) = live_src {
+            let t0 = Instant::now();
+            let mut k: u64 = 0;
+            loop {
+                k += 1;
+                let mut m = l.clone();
+                m.reception_time_us = live_base_us + k * 10_000;
+                m.timestamp_dms = l.timestamp_dms.wrapping_add(((live_base_us - l.reception_time_us) / 100) as u32).wrapping_add((k * 100) as u32);
+                m.index = live_first_index.wrapping_add(k as u32);
+                if sync_sender_send_delay_if_full(m, &tx_for_parse_thread).is_err() {
+                    break;
+                }
+                if k % 256 == 0 && t0.elapsed() > JOIN_BOUND + Duration::from_secs(5) {
+                    break; // safety net only: the contract has seen the join time-outs by then
+                }
             }
         }
         drop(tx_for_parse_thread);
@@ -668,6 +696,7 @@ struct Stats {
     full_hits: u64,
     hung: bool,
     cases_with_full: u64,
+    live_drop_cases: u64,
 }
 
 /// reference run + run under test; writes the trace of the case. Returns false if a thread hangs (the process must end).
@@ -703,7 +732,28 @@ fn do_case(t: &mut Trace, st: &mut Stats, case: u64, spec: &PipeSpec, msgs: &[Dl
         "caps":caps,"drop_at":pacing.drop_at.map(|x| x as i64).unwrap_or(-1),"n_in":msgs.len(),
         "c_style":pacing.c_style,"c_poll_us":pacing.c_poll_us,"max_p_stall_ms":pacing.p_stalls.iter().map(|x| x.1).max().unwrap_or(0),"max_c_stall_ms":pacing.c_stalls.iter().map(|x| x.1).max().unwrap_or(0),
         "spec":format!("{:?}", spec),"pacing":format!("{:?}", pacing),"info":info}}));
-    let o = run_pipeline(spec, msgs, caps, pacing);
+    // consumer-drop cases (drop position inside what the reference delivered): the source is LIVE - it continues with copies of
+    // the last ordinary log message the reference delivered (no file-transfer message, not of the harness plugin's SKIP context)
+    // OFF unless C13_LIVE_TAIL=1 (an observation mode, not part of the registered check): the statement's streams are finite, and with a
+    // source that never ends the UNCHANGED lifecycle stage does not terminate either once its consumer is gone while a lifecycle is
+    // still buffered (its `break; // exit. the receiver has stopped` leaves only the release loop, the stage goes on reading its
+    // input) - demanding termination there would ask for more than the property states (DESIGN.md 11.10).
+    let live = match pacing.drop_at {
+        Some(d) if d <= r_recv.len() && std::env::var("C13_LIVE_TAIL").map(|v| v == "1").unwrap_or(false) => {
+            let delivered: std::collections::HashSet<i64> = r_recv.iter().map(|e| e.0).collect();
+            msgs.iter().rev().find(|m| {
+                let idx = if m.payload.len() >= 4 { u32::from_le_bytes(m.payload[0..4].try_into().unwrap()) as i64 } else { -1 };
+                delivered.contains(&idx) && m.ctid().map(|c| c != &char4("SKIP")).unwrap_or(false) && !m.is_ctrl_request() && m.noar() <= 2
+                    && !m.payload.windows(2).any(|w| w == b"FL")
+            }).cloned()
+        }
+        _ => None,
+    };
+    let is_live = live.is_some();
+    let o = run_pipeline_live(spec, msgs, caps, pacing, live);
+    if is_live {
+        st.live_drop_cases += 1;
+    }
     // `pos` is only a search hint for TLC (where in the reference a message with this tag sits; 0 = nowhere); TLC verifies it
     let pos_of: std::collections::HashMap<i64, usize> = r_recv.iter().enumerate().map(|(j, e)| (e.0, j + 1)).collect();
     for (i, l, h) in &o.recv {
@@ -1130,7 +1180,7 @@ fn main() {
     let scn_len = a.num("--scn-len", 40) as usize;
     let max_len = a.num("--max-len", 200) as usize;
     let only: Option<u64> = a.get("--only").map(|s| s.parse().expect("number")); // replay of one case number
-    let mut st = Stats { cases: 0, skipped_ref: 0, full_hits: 0, hung: false, cases_with_full: 0 };
+    let mut st = Stats { cases: 0, skipped_ref: 0, full_hits: 0, hung: false, cases_with_full: 0, live_drop_cases: 0 };
     let mut case: u64 = 0;
     let mut ok = true;
     if let Some(f) = a.get("--scenarios") {
@@ -1312,7 +1362,7 @@ fn main() {
     t.flush();
     println!(
         "{}",
-        json!({"cases": st.cases, "lines": t.lines, "skipped_ref": st.skipped_ref, "full_hits": st.full_hits,
+        json!({"cases": st.cases, "lines": t.lines, "skipped_ref": st.skipped_ref, "live_drop_cases": st.live_drop_cases, "full_hits": st.full_hits,
                "cases_with_full": st.cases_with_full, "hung": st.hung, "shard": shard})
     );
     // a hung stage thread cannot be killed: leave without joining it
